@@ -274,6 +274,19 @@ def recfault(case, ctx):
     _verdict(ctx, hc, hs, what, "recfault/%s/%s/%s#%d" % (fault, proto, d, idx), stalled)
 
 
+# the four record-level faults the statement names, at EVERY record of the handshake: one case walks all records of one configuration
+walk_case = st.fixed_dictionaries({"proto": st.sampled_from(net.PROTOS), "mutual": st.booleans(), "seed": st.integers(0, 1),
+                                   "fault": st.sampled_from(["drop", "dup", "swap", "trunc-raw"]), "k": st.sampled_from([1, 1, 2, 16])})
+
+
+@P.sub("recwalk", walk_case, quick=240, thorough=2400, chunk=8)
+def recwalk(case, ctx):
+    """drop / duplicate / swap-with-next / truncate applied to every record of the handshake in turn"""
+    base = _baseline(ctx, case["proto"], case["mutual"], case["seed"])
+    for ri in range(len(base)):
+        recfault(dict(case, rec=ri, other=0, ctype=23, cver="", clen=0, cfill=0), ctx)
+
+
 hsinj_case = st.fixed_dictionaries(dict(cfg, rec=st.integers(0, 63), hs=st.integers(0, len(CRAFT_HS) - 1), cver=st.sampled_from(CRAFT_VERS)))
 
 
